@@ -8,7 +8,8 @@ META = dict(
     id='C19',
     model_run='PG.Model.Perm.run',
     model_targets=['Model/Perm.vo'],
-    instance_obligations=['generated_table_covers (Proofs/PermInstance.v: covers Gen.PermTable.tbl = true, vm_compute, re-checked on the table regenerated from the current source)'],
+    instance_obligations=['generated_table_covers (Proofs/PermInstance.v: covers Gen.PermTable.tbl = true, vm_compute, re-checked on the table regenerated from the current source)',
+                          'generated_eval_perm_* (Proofs/PermInstance.v: four lemmas about Gen.PermTable.eval_perm as regenerated from execution.py)'],
     technique='Coq proof over a rose-tree AST model (induction on the tree) + table regenerated from parsing.py by a fail-closed ast translator + differential correspondence and sentinel oracle',
     design_ref='DESIGN.md §5 C19',
     level_text=('Theorems (any program, any nesting depth, any of the 256 permission sets): the validator rejects iff some node needs a withheld flag; '
@@ -118,6 +119,8 @@ REQUIRED = {'Assign': 'ASSIGN', 'AugAssign': 'ASSIGN', 'AnnAssign': 'ASSIGN', 'N
             'For': 'LOOP', 'While': 'LOOP', 'AsyncFor': 'LOOP', 'Call': 'CALL', 'Try': 'EXCEPTION', 'TryStar': 'EXCEPTION', 'Raise': 'EXCEPTION',
             'Assert': 'EXCEPTION', 'ClassDef': 'CLASS_DEFINITION', 'FunctionDef': 'FUNCTION_DEFINITION', 'AsyncFunctionDef': 'FUNCTION_DEFINITION',
             'Lambda': 'FUNCTION_DEFINITION', 'Import': 'IMPORT', 'ImportFrom': 'IMPORT'}
+
+GENERATED = {'Gen/PermTable.v': perm_table.translate}
 
 def py():
   from pyglove.core.coding import parsing, permissions, execution, errors
@@ -238,6 +241,25 @@ def impl_scopes(ps, flag_order):
     return None
   return sum(1 << i for i, f in enumerate(flag_order) if p & getattr(permissions.CodePermission, f))
 
+def impl_evaluate_accepts(code, arg_bits, scopes, flag_order):
+  """Does evaluate() get past validation?  (rejected = CodeError caused by SyntaxError with the sentinel untouched)"""
+  parsing, permissions, execution, errors = py()
+  g = make_globals()
+  kw = dict(global_vars=g)
+  if arg_bits is not None:
+    kw['permission'] = perm_of_bits(arg_bits, flag_order)
+  with contextlib.ExitStack() as st:
+    for sc in scopes:
+      st.enter_context(permissions.permission(perm_of_bits(sc, flag_order)))
+    try:
+      with contextlib.redirect_stdout(io.StringIO()):
+        execution.evaluate('SENTINEL[0]\n' + code, **kw)
+      return True
+    except errors.CodeError as e:
+      return not (isinstance(e.cause, SyntaxError) and g['SENTINEL'].hits == 0)
+    except BaseException:
+      return True
+
 def parseable(snips):
   out = []
   for s in snips:
@@ -302,6 +324,14 @@ def run(ctx):
   for _ in range(ctx.scale(60, 600)):
     ps = [rng.randrange(ALL + 1) for _ in range(rng.randint(0, 4))]
     scope_cases.append(ps)
+  # (D) evaluate(code, permission=arg) inside nested scopes
+  eval_cases = []
+  pool = [s for s in snippets if executable(s)] + [src for src, _ in progs[:ctx.scale(60, 600)]]
+  for _ in range(ctx.scale(300, 5000)):
+    src = rng.choice(pool)
+    arg = rng.choice([None, 0, ALL, rng.randrange(ALL + 1), rng.randrange(ALL + 1)])
+    scs = [rng.choice([0, ALL, rng.randrange(ALL + 1)]) for _ in range(rng.choice([0, 0, 1, 1, 2, 3]))]
+    eval_cases.append((src, arg, scs))
   impl_outs, trs, descrs = [], [], []
   for d, c, kind in cases:
     ok = impl_validate(d['code'], d['bits'], flag_order)
@@ -313,6 +343,13 @@ def run(ctx):
     eff = impl_scopes(ps, flag_order)
     impl_outs.append([1, trlib.opt(eff)]); trs.append([1, ps]); descrs.append(dict(scopes=ps))
     ctx.count(('scopes', tuple(ps)), nontrivial=len(ps) >= 2, kind='scopes')
+  for src, arg, scs in eval_cases:
+    full = 'SENTINEL[0]\n' + src
+    acc = impl_evaluate_accepts(src, arg, scs, flag_order)
+    impl_outs.append([2, 1 if acc else 0]); trs.append([2, trlib.opt(arg), scs, conv(ast.parse(full), kidx)])
+    descrs.append(dict(evaluate=src, arg_bits=arg, scopes=scs))
+    ctx.count(('eval', src, arg, tuple(scs)), nontrivial=bool(needed_flags(ast.parse(src))) and (arg is not None or bool(scs)), kind='evaluate')
+    ctx.hist('evaluate_shape', 'arg=%s scopes=%d' % ('none' if arg is None else 'given', len(scs)))
   model_outs = ctx.model_run(trs)
   lookup = {id(t): d for t, d in zip(trs, descrs)}
   bad = ctx.compare('Perm.run vs parsing.parse / permissions.permission', trs, impl_outs, model_outs, describe=lambda c: lookup.get(id(c)))
